@@ -39,6 +39,7 @@ func main() {
 		os.Exit(2)
 	}
 	dir, _ := filepath.Abs(os.Args[1])
+	detectLoopVarSemantics(dir)
 	cfg := &packages.Config{
 		Mode: packages.NeedName | packages.NeedFiles | packages.NeedCompiledGoFiles | packages.NeedSyntax |
 			packages.NeedTypes | packages.NeedTypesInfo | packages.NeedImports | packages.NeedDeps,
@@ -552,7 +553,7 @@ func (r *rewriter) rewriteCall(c *astutil.Cursor, n *ast.CallExpr) {
 			arg = &ast.UnaryExpr{Op: token.AND, X: sel.X}
 		}
 		c.Replace(call(sim("WG"+sel.Sel.Name), append([]ast.Expr{r.site(n.Pos()), arg}, n.Args...)...))
-	case "Go":
+	case "Go", "TryGo":
 		if len(n.Args) != 1 {
 			return
 		}
@@ -581,6 +582,27 @@ var rawSyscalls = map[string]bool{"Open": true, "Openat": true, "Creat": true, "
 	"Lstat": true, "Fstat": true, "Syscall": true, "Syscall6": true, "RawSyscall": true, "RawSyscall6": true, "Mmap": true, "Dup": true,
 	"Dup2": true, "Kill": true, "Exec": true, "ForkExec": true, "Setrlimit": true, "Flock": true, "Sendfile": true}
 
+// sharedLoopVars: the module's go.mod says go < 1.22 (or nothing), so the variables of a
+// `for ... := range` statement are shared by all iterations. The rewritten loops must keep that:
+// a closure that captures the variable and runs late sees a later element, and such a bug
+// must stay visible to the simulation.
+var sharedLoopVars = true
+
+func detectLoopVarSemantics(dir string) {
+	b, err := os.ReadFile(filepath.Join(dir, "go.mod"))
+	if err != nil {
+		return
+	}
+	for _, l := range strings.Split(string(b), "\n") {
+		f := strings.Fields(l)
+		if len(f) == 2 && f[0] == "go" {
+			var maj, min int
+			fmt.Sscanf(f[1], "%d.%d", &maj, &min)
+			sharedLoopVars = maj < 1 || (maj == 1 && min < 22)
+		}
+	}
+}
+
 func define(name string, x ast.Expr) ast.Stmt {
 	return &ast.AssignStmt{Lhs: []ast.Expr{ast.NewIdent(name)}, Tok: token.DEFINE, Rhs: []ast.Expr{x}}
 }
@@ -600,6 +622,25 @@ func (r *rewriter) rewriteMapRange(c *astutil.Cursor, n *ast.RangeStmt) {
 	tok := n.Tok
 	if tok == token.ILLEGAL {
 		tok = token.DEFINE
+	}
+	// one set of iteration variables for all iterations (go < 1.22): declared once, outside the
+	// loop, with the map's key and value types; { m := X; k, v := MapZero(m); for ... { k = ...; v, ok = ... } }
+	var outer []ast.Stmt
+	if sharedLoopVars && n.Tok == token.DEFINE && !r.labeled[n] && (!blank(n.Key) || !blank(n.Value)) {
+		mName := r.name("m")
+		lk, lv := ast.Expr(ast.NewIdent("_")), ast.Expr(ast.NewIdent("_"))
+		if !blank(n.Key) {
+			lk = ast.NewIdent(n.Key.(*ast.Ident).Name)
+		}
+		if !blank(n.Value) {
+			lv = ast.NewIdent(n.Value.(*ast.Ident).Name)
+		}
+		outer = []ast.Stmt{
+			define(mName, n.X),
+			&ast.AssignStmt{Lhs: []ast.Expr{lk, lv}, Tok: token.DEFINE, Rhs: []ast.Expr{call(sim("MapZero"), ast.NewIdent(mName))}},
+		}
+		n.X = ast.NewIdent(mName)
+		tok = token.ASSIGN
 	}
 	if !blank(n.Key) {
 		pre = append(pre, &ast.AssignStmt{Lhs: []ast.Expr{n.Key}, Tok: tok, Rhs: []ast.Expr{&ast.SelectorExpr{X: ast.NewIdent(e), Sel: ast.NewIdent("K")}}})
@@ -632,6 +673,9 @@ func (r *rewriter) rewriteMapRange(c *astutil.Cursor, n *ast.RangeStmt) {
 	n.Value = ast.NewIdent(e)
 	n.Tok = token.DEFINE
 	n.X = call(sim("MapRange"), r.site(n.Pos()), n.X)
+	if outer != nil {
+		c.Replace(&ast.BlockStmt{List: append(outer, n)})
+	}
 }
 
 func (r *rewriter) rewriteChanRange(c *astutil.Cursor, n *ast.RangeStmt) {
@@ -647,6 +691,22 @@ func (r *rewriter) rewriteChanRange(c *astutil.Cursor, n *ast.RangeStmt) {
 	hasKey := n.Key != nil
 	if id, ok := n.Key.(*ast.Ident); ok && id.Name == "_" {
 		hasKey = false
+	}
+	if hasKey && n.Tok == token.DEFINE && sharedLoopVars {
+		// one variable for all iterations:
+		// { ch := X; v, ok := RecvOk(ch); for ; ok; v, ok = RecvOk(ch) { body } }
+		recv := func() ast.Expr { return call(sim("RecvOk"), r.site(n.Pos()), ast.NewIdent(chName)) }
+		keyName := n.Key.(*ast.Ident).Name
+		c.Replace(&ast.BlockStmt{List: []ast.Stmt{
+			define(chName, n.X),
+			&ast.AssignStmt{Lhs: []ast.Expr{ast.NewIdent(keyName), ast.NewIdent(okName)}, Tok: token.DEFINE, Rhs: []ast.Expr{recv()}},
+			&ast.ForStmt{
+				Cond: ast.NewIdent(okName),
+				Post: &ast.AssignStmt{Lhs: []ast.Expr{ast.NewIdent(keyName), ast.NewIdent(okName)}, Tok: token.ASSIGN, Rhs: []ast.Expr{recv()}},
+				Body: n.Body,
+			},
+		}})
+		return
 	}
 	if hasKey {
 		lhs0 = ast.NewIdent(vName)
